@@ -6,6 +6,8 @@ import (
 
 	enc "github.com/named-data/ndnd/std/encoding"
 	mgmt "github.com/named-data/ndnd/std/ndn/mgmt_2022"
+
+	"verif/harness/internal/evid"
 )
 
 // ---------------------------------------------------------------------------- reference tables
@@ -149,6 +151,51 @@ type expectation struct {
 	probeFace int
 	// probeName != "": after an accepted command send an Interest under that name
 	probeName string
+	// known: the tolerance of a listed known finding was applied
+	known bool
+	// skip: the command must not be executed by the harness at all
+	skip bool
+}
+
+// knownOverrun names the known finding "nested TLV whose length overruns its container is
+// decoded as an empty structure" (std/encoding Delegate), as far as it shows through C17.
+const knownOverrun = "params-length-overrun-decoded-as-empty"
+
+// strictOverrun switches the tolerance of that known finding off (used by the unit that
+// re-confirms the finding).
+var strictOverrun bool
+
+// outerOverrun reports whether b starts with a ControlParameters TLV header whose length
+// runs past the end of b.
+func outerOverrun(b []byte) bool {
+	if len(b) < 2 || b[0] != 0x68 {
+		return false
+	}
+	var l uint64
+	var hdr int
+	switch {
+	case b[1] <= 0xfc:
+		l, hdr = uint64(b[1]), 2
+	case b[1] == 0xfd:
+		if len(b) < 4 {
+			return false
+		}
+		l, hdr = uint64(b[2])<<8|uint64(b[3]), 4
+	case b[1] == 0xfe:
+		if len(b) < 6 {
+			return false
+		}
+		l, hdr = uint64(b[2])<<24|uint64(b[3])<<16|uint64(b[4])<<8|uint64(b[5]), 6
+	default:
+		if len(b) < 10 {
+			return false
+		}
+		for _, x := range b[2:10] {
+			l = l<<8 | uint64(x)
+		}
+		hdr = 10
+	}
+	return l > uint64(len(b)-hdr)
 }
 
 var controlVerbs = map[string]bool{
@@ -288,6 +335,18 @@ func (m *model) expect(op Op, arrivalScopeLocal bool) expectation {
 		e.kind, e.class = expBad, "bad:no-parameters:"+mv
 		return e
 	case "garbage", "empty", "wrongtlv", "trunc":
+		if op.overrun && !strictOverrun && evid.Known("C17", knownOverrun) {
+			// known finding (std/encoding): a ControlParameters TLV whose length overruns the
+			// component is decoded as an empty parameter block instead of being rejected.
+			// Exactly that signature is tolerated: such a command may also be handled as the
+			// same command with no parameters at all.
+			inner := m.expect(Op{Face: op.Face, Pfx: op.Pfx, Mod: op.Mod, Verb: op.Verb, Form: "plain"}, arrivalScopeLocal)
+			if inner.kind == expOK || inner.kind == expEither {
+				inner.kind, inner.class = expEither, "known:overrunning-parameters-handled-as-empty"
+				inner.known = true
+				return inner
+			}
+		}
 		e.kind, e.class = expBad, "bad:undecodable-parameters("+op.Form+")"
 		return e
 	}
@@ -500,19 +559,15 @@ func (m *model) expect(op Op, arrivalScopeLocal bool) expectation {
 		}
 		k := m.faceIndex(target)
 		spec := faceSpecs[k]
+		_ = spec
 		if (p.Flags == nil) != (p.Mask == nil) {
 			return bad("flags-without-mask")
 		}
 		ok(mv)
-		if p.Pers != nil {
-			switch {
-			case *p.Pers > 2:
-				either("persistency-out-of-range")
-			case strings.HasPrefix(spec.remote, "udp") && *p.Pers == 1:
-				return bad("on-demand-persistency-on-udp-face")
-			case strings.HasPrefix(spec.local, "unix") && *p.Pers != 0:
-				return bad("non-persistent-unix-face")
-			}
+		if p.Pers != nil && *p.Pers != m.faces[k].pers {
+			// which transitions a transport permits (and whether 7 is a persistency at all)
+			// is not part of the statement
+			either("persistency-change")
 		}
 		if p.Mtu != nil {
 			switch {
@@ -611,7 +666,20 @@ func (m *model) expect(op Op, arrivalScopeLocal bool) expectation {
 		}
 	case "faces/create":
 		// the generator only issues requests that must be refused (see genOp)
-		return bad("create-refused:" + createClass(p))
+		cl := createClass(p)
+		if cl == "uri" {
+			for i, fs := range faceSpecs {
+				if fs.remote != *p.Uri {
+					continue
+				}
+				if !m.faces[i].live {
+					// would succeed and open a real socket inside the bubble: never executed
+					return expectation{kind: expIgnore, class: "skipped:create-would-open-a-socket", probeFace: -1, skip: true}
+				}
+				cl = "conflicts-with-existing-face"
+			}
+		}
+		return bad("create-refused:" + cl)
 	}
 	return e
 }
@@ -624,11 +692,8 @@ func createClass(p P) string {
 		return "flags-without-mask"
 	case p.Pers != nil:
 		return "persistency"
-	}
-	for _, fs := range faceSpecs {
-		if fs.remote == *p.Uri {
-			return "conflicts-with-existing-face"
-		}
+	case p.Mtu != nil && *p.Mtu < mustRefuseMTUBelow:
+		return "mtu-too-small"
 	}
 	return "uri"
 }
